@@ -1089,7 +1089,7 @@ impl DB {
         let mut use_new_manifest = false;
         let db_state = self.generate_portable_state();
 
-        let (mut wal_record, mut is_eof) = wal_reader.read_record()?;
+        let (mut wal_record, mut is_eof) = DB::read_next_intact_wal_record(&mut wal_reader)?;
         while !is_eof {
             if wal_record.len() < 12 {
                 // Ignore transactions that do not contain any operations
@@ -1121,7 +1121,7 @@ impl DB {
                 memtable = Arc::new(Box::new(SkipListMemTable::new()));
             }
 
-            (wal_record, is_eof) = wal_reader.read_record()?;
+            (wal_record, is_eof) = DB::read_next_intact_wal_record(&mut wal_reader)?;
         }
 
         // A WAL with a torn tail cannot be appended to
@@ -1160,6 +1160,26 @@ impl DB {
         }
 
         Ok((use_new_manifest, last_sequence_number))
+    }
+
+    /**
+    Read the next record of a write-ahead log, skipping records that fail their integrity checks.
+
+    Corruption in a write-ahead log is logged and otherwise ignored (see the architecture docs).
+    */
+    fn read_next_intact_wal_record(wal_reader: &mut LogReader) -> RainDBResult<(Vec<u8>, bool)> {
+        loop {
+            match wal_reader.read_record() {
+                Ok(record) => return Ok(record),
+                Err(crate::errors::LogIOError::Seralization(err)) => {
+                    log::error!(
+                        "Skipping a damaged write-ahead log record. Error: {:?}",
+                        err
+                    );
+                }
+                Err(read_err) => return Err(read_err.into()),
+            }
+        }
     }
 
     /**
